@@ -926,6 +926,9 @@ func main() {
 	ctx.Jobs("deep-inputs", 1, func(int) { deepInputs() })
 	ctx.Jobs("amplification", 1, func(int) { amplification() })
 	ctx.Jobs("poison-pairs", 1, func(int) { poisonPairs() })
+	if !ctx.IsChild() {
+		ctx.RacePairs("smf-read")
+	}
 	ctx.Jobs("two-prefixes", 1, func(int) { twoPrefixes() })
 	nal := len(smfgen.Tokens()) * 4
 	ctx.Jobs("truncations", nal, func(j int) { truncationFamily(j) })
